@@ -97,6 +97,7 @@ InitMem ==
     stopreq |-> FALSE,      \* experiment.stop() was called (SIGINT handler)
     exitmode |-> FALSE,     \* experiment.exitMode
     result |-> [i \in Insts |-> NONE],
+    xpof |-> [i \in Insts |-> 0],     \* the experiment (s.inc) an instance was registered in
     mwait |-> <<NONE, NONE>> ]
 
 InitWorld ==
@@ -305,7 +306,7 @@ Register(i) ==
   /\ Running /\ BagIn(s.ready, CbReg(i))
   /\ LET n == NameOf(i)
          o == s.regmap[n]
-         s1 == [s EXCEPT !.ready = BagDel(@, CbReg(i)), !.pc[i] = "regdone"]
+         s1 == [s EXCEPT !.ready = BagDel(@, CbReg(i)), !.pc[i] = "regdone", !.xpof[i] = s.inc]
      IN s' = IF o # NONE
              THEN IF s.jstate[o] = "ERROR"
                   THEN (* re-submission of a failed job *)
@@ -486,6 +487,17 @@ Restart ==
   /\ s' = [FreshMem(s) EXCEPT !.phase = "run", !.mpc = s.mpc + 1, !.inc = @ + 1]
   /\ UNCHANGED wl
 
+(* a second experiment in the same program (same process): the scheduler, its registry and its counters are new, the
+   job objects of the first experiment -- and what the program holds of them: outputs, final states -- are still there,
+   and can be used as dependencies without being submitted again *)
+NewXp ==
+  /\ s.phase = "closed" /\ Op.op = "newxp"
+  /\ s' = [s EXCEPT !.phase = "run", !.mpc = @ + 1, !.inc = @ + 1,
+                    !.regmap = InitMem.regmap, !.ready = EmptyBag, !.threads = {}, !.unfinished = 0, !.failed = {},
+                    !.waiter = "none", !.stopreq = FALSE, !.exitmode = FALSE, !.mwait = <<NONE, NONE>>,
+                    !.avail = InitMem.avail, !.tdeps = InitMem.tdeps]
+  /\ UNCHANGED wl
+
 (* between two runs the user removes the success marker of a job *)
 RmDone(n) ==
   /\ s.phase \in {"dead", "closed"} /\ Op.op = "rmdone" /\ Op.n = n /\ s.done[n]
@@ -535,7 +547,7 @@ Next ==
   \/ AProcLock \/ AProcExit
   \/ WaitCall \/ WaiterStep \/ WaitReturn
   \/ Sigint \/ StopStep \/ WaitReturnStopped
-  \/ KillOp \/ Restart
+  \/ KillOp \/ Restart \/ NewXp
   \/ Terminated
 
 Init == wl \in {} /\ s = InitState   \* overridden by the MC / trace modules
@@ -564,6 +576,7 @@ SuccessfulBodyAtMostOnce == \A n \in Names : s.bodyends[n] <= 1
 RegistryDedup ==
   \A i, j \in Insts :
      (i # j /\ NameOf(i) = NameOf(j) /\ s.regres[i] = "new" /\ s.regres[j] = "new"
+        /\ s.xpof[i] = s.xpof[j]          \* (in the same experiment)
         /\ s.pc[i] \notin {"none", "reg", "regdone"} /\ s.pc[j] \notin {"none", "reg", "regdone"})
      => (s.jstate[i] = "ERROR" \/ s.jstate[j] = "ERROR")
 
@@ -588,7 +601,7 @@ EarlyReturnOnlyAfterStop == [][EarlyReturnOnlyAfterStopA]_vars
 (* C07 *)
 ExitReportsFailureIffFailed ==
   (s.waiter \in {"ok", "failed"} /\ ~s.exitmode) =>
-     (s.waiter = "failed" <=> \E i \in NewInsts : s.jstate[i] = "ERROR")
+     (s.waiter = "failed" <=> \E i \in NewInsts : s.xpof[i] = s.inc /\ s.jstate[i] = "ERROR")
 FailedDependentsCancelled ==
   (s.phase = "closed") =>
      \A i \in NewInsts :
